@@ -146,6 +146,17 @@ Theorem C14_recovery_listing_fails_closed : forall (E : env) (st : store) (a : a
 Proof. exact recovery_listing_fails_closed. Qed.
 Print Assumptions C14_recovery_listing_fails_closed.
 
+(* The generator APIs' guard makes a short read impossible to miss: whatever prefix of each row group the batched
+   parquet reader hands out (a damaged per-group count, chunk count or offset makes it stop early without an
+   error), comparing the number of rows handed out with the file's true row count -- its file-level footer count,
+   which is what the code compares with -- lets the read succeed only with ALL rows of ALL groups. *)
+Theorem C14_batched_guard_complete : forall (handed groups : list (list row)) (rows : list row),
+  Forall2 prefix_of handed groups ->
+  guarded_batches (List.length (List.concat groups)) handed = Ok rows ->
+  rows = List.concat groups.
+Proof. exact batched_guard_complete. Qed.
+Print Assumptions C14_batched_guard_complete.
+
 (* The model does not raise without cause (so the theorems above are not satisfied by a pipeline that
    always fails): with no transient fault anywhere, metadata that resolves, a complete answer on the
    specification side and recorded checksums that match, every API returns exactly that answer. *)
